@@ -24,7 +24,7 @@ from . import common
 from .common import Check, Graph, impl_call
 
 INVS = ["TypeOK", "ClaimConsistent", "CircuitsAnchored"]
-PROPS = ["GhostsRight", "DeliveredOnce", "UseCircuitRule", "DiscardsInert", "NoCrossTalk", "OnlyNamedChanges"]
+PROPS = ["GhostsRight", "ClaimRule", "DeliveredOnce", "UseCircuitRule", "DiscardsInert", "NoCrossTalk", "OnlyNamedChanges"]
 SOCKS_BAD = ("badrsv", "badfrag", "badatyp", "shortsocks")
 LLUDP_BAD = ("short", "unkmsg")
 KILL_NAMES = ("CloseCircuit", "DisableSimulator")
@@ -484,6 +484,7 @@ def _judge(w: World, lay, e, pl, sends, raised, pr):
 _CANDS = None     # state -> in-edges from shallower states, edges without implementation choice first
 _GOODP = {}       # state -> in-edge that this implementation was seen to follow
 _BADE = set()     # in-edges this implementation does not follow (it takes the other allowed branch)
+_UNREACH = set()  # states none of whose in-edges it follows
 
 
 def _prep(g: Graph):
@@ -508,10 +509,11 @@ def _prep(g: Graph):
         if e["_s"] in depth and depth[e["_s"]] < depth[e["_d"]]:
             cands[e["_d"]].append(i)
     for k in cands:
-        cands[k].sort(key=lambda i: (bool(g.edges[i]["act"]["ch"]), depth[g.edges[i]["_s"]], i))
+        cands[k].sort(key=lambda i: (bool(g.edges[i]["act"]["ch"]), g.edges[i]["act"]["h"] < 0, depth[g.edges[i]["_s"]], i))
     _CANDS = dict(cands)
     _GOODP.clear()
     _BADE.clear()
+    _UNREACH.clear()
 
 
 def _path_to(skey):
@@ -531,11 +533,14 @@ def _new_world(lay, seed):
 
 
 def _reach(lay, skey, seed):
-    """Real objects in abstract state skey, or None when this implementation never gets there (on
+    """Real objects in abstract state skey, or None when this implementation does not get there (on
     every way in it takes the other branch of a choice the property leaves open; a step that no
-    branch allows is reported where that edge itself is replayed)."""
+    branch allows is reported where that edge itself is replayed).  The memo only ever causes a
+    state to be skipped, never a verdict."""
     if not _CANDS.get(skey):
         return _new_world(lay, seed), []
+    if skey in _UNREACH:
+        return None, []
     order = list(_CANDS[skey])
     if skey in _GOODP:
         order.remove(_GOODP[skey])
@@ -544,16 +549,18 @@ def _reach(lay, skey, seed):
         if ei in _BADE:
             continue
         e = _G.edges[ei]
-        w, hist = _reach(lay, e["_s"], seed)
-        if w is None:
-            continue
-        label, _, _, _ = _apply(w, lay, e["act"])
-        hist.append(dict(e["act"], label=label))
-        if w.proj() == _norm_state(e["dst"]):
-            _GOODP[skey] = ei
-            return w, hist
+        for attempt in range(2):     # the concrete datagram (message type) varies with the seed
+            w, hist = _reach(lay, e["_s"], seed + 104729 * attempt)
+            if w is None:
+                break
+            label, _, _, _ = _apply(w, lay, e["act"])
+            hist.append(dict(e["act"], label=label))
+            if w.proj() == _norm_state(e["dst"]):
+                _GOODP[skey] = ei
+                return w, hist
+            w.close()
         _BADE.add(ei)
-        w.close()
+    _UNREACH.add(skey)
     return None, []
 
 
@@ -613,33 +620,39 @@ def _replay_states(tasks):
                 fails.append({"layout": li + 1, "history": hist + since[-6:], "act": {k: v for k, v in act.items() if k != "ch"},
                               "label": label, "mismatches": bad[:2], "alternatives_allowed": len(grp),
                               "after_self_addressed": act["n"] == "C" and any(
-                                  _poisons(x) and x["a"] == act["a"] for x in since[:-1])})
+                                  _poisons(x) and x["a"] == act["a"] for x in hist + since[:-1])})
                 if not fresh:
                     w.close()
                     w, hist = _reach(lay, skey, base + len(fails))
-                    if w is None:
-                        raise common.MachineryError("state reached once is not reached again: replay is not deterministic")
                     since = []
                 return False
             return True
         for grp in loops:
+            if w is None:
+                break
             act = grp[0]["act"]
             if act["k"] == "spoof" and lay["unk"]["ip"] == lay["clients"][act["a"] - 1]["ip"]:
                 continue    # on the viewer's own IP a stranger cannot be told from the viewer
             if one(grp) and all(e["obs"]["sends"] and not e["obs"]["may"] for e in grp):
                 passed.append(grp)
         for grp in selfies:
+            if w is None:
+                break
             if not one(grp):
                 continue
             probes = [p for p in passed if p[0]["act"]["a"] == grp[0]["act"]["a"]]
             for p in random.Random(base + n_edges).sample(probes, min(3, len(probes))):
-                if not one(p):
+                if w is None or not one(p):
                     break
-        w.close()
+        if w is None:
+            skipped += 1
+        else:
+            w.close()
         for j, grp in enumerate(moves):
             w, hist = _reach(lay, skey, base + 7919 * (j + 1))
             if w is None:
-                raise common.MachineryError("state reached once is not reached again: replay is not deterministic")
+                skipped += 1
+                continue
             since = []
             one(grp, fresh=True)
             w.close()
@@ -651,18 +664,24 @@ def _features(f):
     act = f["act"]
     feat = {"kind": "b1", "clause": m["clause"], "what": m["what"], "act": act["n"], "k": act["k"],
             "after_self_addressed": f["after_self_addressed"]}
-    if act["k"] in ("msg", "kill", "banned", "badbody", "ucc"):
+    if act["k"] in ("msg", "kill", "banned", "badbody", "ucc") and not f["after_self_addressed"]:
         feat["msg"] = f["label"]
     return feat
 
 
 def _b1(chk: Check, consts, label, layouts=(0, 1)):
     global _G, _TABLE, _CONST, _SEED
-    cfg = "SPECIFICATION Spec\nCONSTANTS %s\nVIEW MView\n%s%s" % (
-        _consts(consts), "".join("INVARIANT %s\n" % i for i in INVS), "".join("PROPERTY %s\n" % p for p in PROPS))
-    common.model_check(chk, "UdpProxy_MC", cfg, "UdpProxy_MC " + label)
-    recs = common.export_records(chk, "UdpProxy_MBT", "SPECIFICATION MSpec\nCONSTANTS %s\nVIEW MView\n" % _consts(consts),
-                                 "UdpProxy_MBT " + label)
+    # one TLC run: exhaustive check of the invariants / action properties and of the framing law
+    # (UdpProxy_MBT extends UdpProxy_MC), and export of the labelled transition system
+    cfgp = os.path.join(chk.scratch, "mbt-%s.cfg" % label)
+    with open(cfgp, "w") as f:
+        f.write("SPECIFICATION MSpec\nCONSTANTS %s\nVIEW MView\n%s%s" % (
+            _consts(consts), "".join("INVARIANT %s\n" % i for i in INVS), "".join("PROPERTY %s\n" % p for p in PROPS)))
+    res = common.run_tlc(os.path.join(common.SPECS, "UdpProxy_MBT.tla"), cfgp, workers=1, scratch=chk.scratch, heap="8g")
+    chk.require_model_ok(res, "UdpProxy_MBT " + label)
+    if not res.ok:
+        return 0, 0
+    recs = res.printed()
     tables = [r for r in recs if "table" in r]
     if len(tables) != 1:
         raise common.MachineryError("UdpProxy_MBT printed %d table records" % len(tables))
@@ -691,7 +710,6 @@ def _b1(chk: Check, consts, label, layouts=(0, 1)):
     for e in g.edges:
         if e["obs"]["sends"] or e["src"] != e["dst"]:
             chk.nontrivial(("edge", label, e["_s"], common.skey(e["act"])))
-    seen = set()
     skipped = sum(r[3] for r in results)
     if skipped:
         chk.notes.append("B1 %s: %d (state, layout) pairs are not reached by this implementation (other branch of a "
@@ -699,15 +717,16 @@ def _b1(chk: Check, consts, label, layouts=(0, 1)):
     if skipped > len(tasks) // 2:
         chk.violation("B1 %s: most model states are unreachable in the implementation" % label,
                       {"kind": "b1-unreachable"}, {"skipped": skipped, "of": len(tasks)})
+    byfeat = collections.OrderedDict()
     for _, fails, _, _ in results:
         for f in fails:
-            feat = _features(f)
-            key = common.skey(feat)
-            if key in seen and len(seen) > 40:
-                continue
-            seen.add(key)
-            chk.violation("B1 %s: %s (%s %s %s)" % (label, f["mismatches"][0]["what"], f["act"]["n"], f["act"]["k"], f["label"]),
-                          feat, f)
+            byfeat.setdefault(common.skey(_features(f)), []).append(f)
+    for key in sorted(byfeat):
+        fl = sorted(byfeat[key], key=lambda f: len(f["history"]))
+        f = fl[0]
+        chk.violation("B1 %s: %s (%s %s %s%s)" % (label, f["mismatches"][0]["what"], f["act"]["n"], f["act"]["k"], f["label"],
+                                                 ", after a datagram addressed to the viewer itself" if f["after_self_addressed"] else ""),
+                      _features(f), dict(f, failing_cases_with_these_features=len(fl)))
     e = next((x for x in g.edges if x["obs"]["sends"] and x["act"]["n"] == "H"), g.edges[0])
     chk.sample({"binding": "B1 edge replay", "path": [p["act"] for p in _path_to(e["_s"])] + [e["act"]],
                 "expected_output": e["obs"], "expected_state": e["dst"]})
@@ -893,10 +912,15 @@ def _b2(chk: Check, n_walks, length, label):
         chk.violation("B2 %s: trace rejected by UdpProxy_Trace at event %d (%s)" % (label, j, ev.get("ev")),
                       {"kind": "b2-reject", "event": ev.get("ev"), "k": ev.get("k"), "msg": ev.get("label")},
                       {"trace_prefix": _clip_trace(traces[ti][max(0, j - 8):j + 1])})
-    for tid, fl in fails.items():
-        seen = set()
-        for f in fl:
-            # fail names are "<C|H|Login|Reg>.<sent|state> <kind> <message label>"
+    seen = set()
+    for tid, fl in sorted(fails.items()):
+        # only the first failing event of a run counts: afterwards specification and implementation
+        # are in different states and every later mismatch is a consequence
+        def idx(f):
+            p = f["fail"].split(" ")
+            return int(p[3]) if len(p) >= 4 and p[3].isdigit() else -1
+        first_i = min(idx(f) for f in fl)
+        for f in [f for f in fl if idx(f) == first_i]:
             # fail names are "<C|H>.<sent|state> <kind> <message label> <event index>"
             parts = f["fail"].split(" ")
             if len(parts) < 4:
@@ -905,8 +929,10 @@ def _b2(chk: Check, n_walks, length, label):
             else:
                 ex = traces[tid][int(parts[3])]
                 first = res[tid][1]["selfie"].get(ex.get("a"))
-                feat = {"kind": "b2", "clause": parts[0], "k": parts[1], "msg": parts[2],
+                feat = {"kind": "b2", "clause": parts[0], "k": parts[1],
                         "after_self_addressed": ex["ev"] == "C" and first is not None and first < int(parts[3])}
+                if not feat["after_self_addressed"]:
+                    feat["msg"] = parts[2]
             if common.skey(feat) in seen:
                 continue
             seen.add(common.skey(feat))
@@ -949,7 +975,7 @@ def run(chk: Check):
     chk.cov["pool"] = {"templates": _POOL.n_templates, "valid_out": len(_POOL.msgs["C"]), "valid_in": len(_POOL.msgs["H"]),
                        "banned": len(_POOL.banned["H"]), "excluded": _POOL.excluded[:20]}
     if quick:
-        _b1(chk, dict(NA=2, NS=2, NH=2, Dyn="TRUE"), "2x2x2")
+        _b1(chk, dict(NA=2, NS=2, NH=2, Dyn="TRUE"), "2x2x2", layouts="alternate")
         _b2(chk, 48, 120, "rand")
     else:
         _b1(chk, dict(NA=2, NS=2, NH=2, Dyn="TRUE"), "2x2x2")
